@@ -300,6 +300,8 @@ struct Mon {
     sync_seq: u64,
     /// (origin, model, time) -> highest scheduling sequence number processed so far, and the action that had it
     group_last: HashMap<(usize, usize, u64), (u64, u64)>,
+    /// C11: the first fatal error a run call returned
+    fatal: Option<String>,
 }
 impl Mon {
     /// an action was accepted for the absolute time `t` (origin 0 = driver / event source, m + 1 = model m)
@@ -684,6 +686,12 @@ fn run_case(lines: Vec<String>, hints: Arc<Mutex<Vec<String>>>, resp: Arc<Mutex<
                             if *seen < before || *seen > now.max(before) {
                                 mon.hit("C01", format!("`{l}`: action {aid} saw time {seen} outside [{before}, {now}]"));
                             }
+                            // C10: an occurrence of a periodic series runs only within the simulated horizon
+                            if *seen > now.max(before) && res.is_ok() {
+                                if let Some((t0p, p, _, _)) = mon.series.get(aid) {
+                                    mon.hit("C10", format!("`{l}`: the occurrence at {seen} of periodic action {aid} (t0={t0p}, period={p}) ran although the call stopped at time {now}"));
+                                }
+                            }
                             // C01/C08: a one-shot driver event fires exactly at its deadline
                             if let Some((d, _)) = mon.oneshots.get(aid) {
                                 if d != seen {
@@ -699,6 +707,44 @@ fn run_case(lines: Vec<String>, hints: Arc<Mutex<Vec<String>>>, resp: Arc<Mutex<
                             }
                         }
                         Rec::Ext { .. } | Rec::KeyAdded { .. } | Rec::Cancelled { .. } | Rec::HSched { .. } => {}
+                    }
+                }
+                // C18: the step fails with OutOfSync only for a lag above the configured tolerance, and reports that lag
+                if let Err(ExecutionError::OutOfSync(got)) = &res {
+                    let n0 = sh.log.lock().unwrap()[..log_start].iter().filter(|r| matches!(r, Rec::Sync(_))).count();
+                    let k = recs.iter().filter(|r| matches!(r, Rec::Sync(_))).count();
+                    let reported = if k > 0 { lags.get(&(n0 + k - 1)).copied() } else { None };
+                    let got = got.as_nanos() as u64;
+                    match (tol, reported) {
+                        (Some(t), Some(lag)) if lag > t && lag == got => {}
+                        (Some(t), Some(lag)) if lag <= t => mon.hit(
+                            "C18",
+                            format!("`{l}` failed with OutOfSync({got}) although the reported lag {lag} does not exceed the tolerance {t}"),
+                        ),
+                        (None, _) => mon.hit("C18", format!("`{l}` failed with OutOfSync({got}) although no tolerance is configured")),
+                        (_, None) => mon.hit("C18", format!("`{l}` failed with OutOfSync({got}) although the clock reported no lag")),
+                        (_, Some(lag)) => mon.hit("C18", format!("`{l}` failed with OutOfSync({got}), the clock reported a lag of {lag}")),
+                    }
+                }
+                // C11: after a fatal error every further run call returns Terminated, runs no model code and keeps the time
+                if let Some(what) = &mon.fatal.clone() {
+                    if !matches!(res, Err(ExecutionError::Terminated)) {
+                        let got = match &res {
+                            Ok(()) => "ok".to_string(),
+                            Err(e) => exec_err(e),
+                        };
+                        mon.hit("C11", format!("`{l}` returned `{got}` after the fatal error `{what}`: it must return Terminated"));
+                    }
+                    if recs.iter().any(|r| matches!(r, Rec::Fire { .. })) {
+                        mon.hit("C11", format!("`{l}` ran model code after the fatal error `{what}`"));
+                    }
+                    if now != before {
+                        mon.hit("C11", format!("`{l}` moved the time from {before} to {now} after the fatal error `{what}`"));
+                    }
+                }
+                if let Err(e) = &res {
+                    if !matches!(e, ExecutionError::Terminated | ExecutionError::InvalidDeadline(_) | ExecutionError::BadQuery) && mon.fatal.is_none() {
+                        mon.fatal = Some(exec_err(e));
                     }
                 }
                 if res.is_ok() && w[0] != "proc" {
